@@ -25,6 +25,29 @@ condition of every type, struct assignment, calls returning structs in registers
 the compiler under test accepts `({ s; }).m` (capability probe in run(); the pinned tree rejects it - reported once as
 `C20|member-of-stmtexpr|cc-fail`).
 
+Operand TYPE PAIRS (mixed_forms): the operators that do not bring their operands to a common type, and the implicit
+conversions around those that do, are enumerated over every ordered pair of operand types - `&&` `||` over 6 x 6 scalar types
+(left operand `g[6 + gc]`: zero for gc = 0, non-zero for gc = 1, so that the right operand IS evaluated and tested; right
+operand non-zero and, in the `z` variant, zero), GNU `?:` over 5 x 5 arithmetic pairs and pointers, the six comparisons and
++ - * / over the 20 mixed arithmetic pairs (% & | ^ << >> for int x long), pointer +- long, ?: arms of mixed types (condition
+int flag / long double), `=` and every `op=` over destination x source pairs, arguments converted to the parameter
+type, `return` converted to the return type.  Size 1 in every context; thorough also replaces either operand of the binary
+forms by every size-1 expression of its type (contexts initializer and pending long double).
+Pending-operand contexts: E evaluated while an operand of type X is pending - `rX = gX[3] + (X)E` for X in {int, long, float,
+double (machine stack), long double (x87 stack)}, `ge[3] < E`, `ge[2] * (ge[3] + E)`, and as the argument evaluated after /
+before a long double argument (`mT(E, ge[3])`, `nT(ge[3], E)`) - for every expression form of every type, in particular calls
+of chibicc-compiled callees of every return class (void, char, _Bool, short, int, long, float, double, long double, pointer,
+struct in registers, struct in memory, struct {long double} returned in %st0).  The value must equal the gcc twin's, so a
+pending operand destroyed by E is seen as a wrong value as well as a depth change.
+`(void)(void)E` for every size-1 E of every type in every value-dropping context (statement, for-increment, comma, return in a
+void function, under a pending long double), loop counts 1 and 1000.
+x87 state instructions: `emms` `femms` `fninit` `finit` empty the whole register stack (own values pending: anomaly
+x87-stack-wiped-with-values-pending; the function is summarised as "empties the x87 stack of its caller" and every call site
+that holds x87 values reports `C20|callee=<name>|S:callee-changes-x87-stack-of-caller`, callers re-modelled to a fixpoint);
+`ffreep %st(0)` and `ffree %st(0); fincstp` are pops, `ffree` of a register the function does not own is an anomaly, other tag /
+TOP manipulation leaves the function unmodelled.  When the model cannot be used on a tree (vocabulary lost, nothing
+validated) the machine measurements still give verdicts; a run without any verdict is then a harness error.
+
 Conversions between all 13 arithmetic types {_Bool, char, signed/unsigned char, short, unsigned short, int, unsigned, long,
 unsigned long, float, double, long double} (156 ordered pairs x 3 contexts: initializer, discarded, operand of pending
 integer and long double additions) are executed once per operand VALUE of a class-boundary grid of the source type (28
@@ -39,7 +62,8 @@ Signatures name the *simplest* enumerated case that shows the anomaly (root-caus
 context with a plain variable (`C20|ctx=exprstmt|ty=e|...`), else the smallest sub-expression / its form with plain
 operands in the neutral context `T v = E` (`C20|form=assign.e(v)|...`); jumps out of statement expressions are one
 class per jump kind and leaked resource (`C20|jump-out-of-stmtexpr|break|leaks=rsp`).
-Anomaly tokens: `S:` from the model (x87-underflow, x87-at-return=+k, x87-not-single-valued, rsp-not-single-valued(-k),
+Anomaly tokens: `S:` from the model (callee-changes-x87-stack-of-caller, x87-stack-wiped-with-values-pending(mn),
+x87-register-of-caller-freed, x87-underflow, x87-at-return=+k, x87-not-single-valued, rsp-not-single-valued(-k),
 rsp-at-return, x87-at-statement-boundary, rsp-differs-between-statement-boundaries), `D:` measured on the machine
 (x87-per-call=+k, x87-top-moved=k, rsp-drift-in-loop=-k/iteration, result-differs-from-gcc-twin, crash-signalN); for
 conversions `C20|conv=<from>><to>|...` with `D:<anomaly>@<value classes showing it>`, classes neg, lt2^31, ge2^31, ge2^32,
@@ -304,8 +328,28 @@ CTX = {
     "switch":   ("il", "switch (%(E)s) { case 2: ri = 1; break; case 3: ri = 2; break; default: ri = 3; }"),
     "return":   (ALLT, None),
 }
+# evaluated while an operand of another type X is pending (pushed on the machine stack / for long double: held on the x87
+# register stack): `rX = gX[3] + (X)E` for X in {int,long,float,double,long double} (X = type of E is `operandr`), under a
+# pending long double comparison, under two pending long doubles, and as the argument evaluated after / before a long
+# double argument.  E of a non-arithmetic type is made arithmetic by as_arith() (p: != 0, struct: .member, void: comma).
+for _X in ARITH:
+    CTX["pend." + _X] = ("".join(t for t in ALLT + "v" if t != _X), None)
+CTX["pendcmp"] = (ALLT + "v", None)
+CTX["pendld2"] = (ALLT + "v", None)
+CTX["argafter"] = (ALLT, "ri = m%(t)s(%(E)s, ge[3]);")
+CTX["argbefore"] = (ALLT, "ri = n%(t)s(ge[3], %(E)s);")
+PEND_CTX = ["pend." + _X for _X in ARITH] + ["pendcmp", "pendld2", "argafter", "argbefore"]
+PEND_X87 = ("pend.e", "pendcmp", "pendld2")       # the ones that hold a long double on the x87 stack: enumerated one size deeper
+MEMBER_CTX = ("operandl", "pendcmp", "pendld2") + tuple("pend." + _X for _X in ARITH)      # apply `.member` to a struct-valued E
 CTX_ORDER = ["exprstmt", "forinc", "commalhs", "callarg", "operandl", "operandr", "init", "if", "while", "dowhile",
-             "forcond", "condop", "switch", "return"]
+             "forcond", "condop", "switch", "return"] + PEND_CTX
+
+
+def as_arith(T, E):
+    """an arithmetic rvalue computed from the expression E of type T"""
+    if T in ARITH:
+        return "(%s)" % E
+    return {"p": "(%s != 0)", "S": "(%s).c", "L": "(%s).a[2]", "v": "(%s, gi[3])"}[T] % E
 
 
 def render_case(ctxname, T, E, F):
@@ -322,6 +366,17 @@ def render_case(ctxname, T, E, F):
             body = "%s = FN(q%s)();" % (RV[T], F)
         d["BODY"] = body
         return (q + LOOP % d, [("q" + F, T == "e"), ("c" + F, False)])
+    if ctxname.startswith("pend"):
+        A = as_arith(T, E)
+        if ctxname == "pendcmp":
+            body = "ri = ge[3] < %s;" % A
+        elif ctxname == "pendld2":
+            body = "re = ge[2] * (ge[3] + %s);" % A
+        else:
+            X = ctxname[5:]
+            body = "%s = %s + (%s)%s;" % (RV[X], zero_of(X), CT[X], A)
+        d["BODY"] = body
+        return (LOOP % d, [("c" + F, False)])
     if ctxname == "operandl":
         if T in ARITH:
             body = "%(R)s = %(E)s + %(Z)s;" % d
@@ -510,19 +565,96 @@ def conv_cases():
     return out
 
 
+# operand TYPE PAIRS: forms whose two operands (or operand and destination) have different types ------------------------
+RANK = "ilfde"
+
+
+def common_type(U, V):
+    return max(U, V, key=RANK.index)
+
+
+def mixed_forms():
+    """-> (binary, other): lists of (result type, format, desc head, U, V[, operand slots]).  Size-1 forms over every ordered
+    pair of operand types.  `binary` forms take two rvalue operands (either may be replaced by a sub-expression of its type);
+    `other` are complete (text, desc) forms with leaf operands.
+      && ||      : 6 x 6 scalar types (same-typed pairs included: the left operand is `g[6 + gc]`, zero for gc = 0 and non-zero
+                   for gc = 1, so that the right operand IS evaluated; right operand non-zero, and zero in the `z` variant)
+      ?: (GNU)   : 5 x 5 arithmetic pairs + pointers, left operand `g[6 + gc]`
+      == .. >=   : 20 mixed arithmetic pairs x 6 operators
+      + - * /    : 20 mixed arithmetic pairs; % & | ^ << >> : int x long, long x int; pointer +- long, long/int + pointer
+      c ? a : b  : arms of 20 mixed arithmetic pairs, condition the int flag and a long double
+      = op=      : destination x source over the 20 mixed arithmetic pairs (op= + - * /; all ten for int x long); pointer +=/-= long
+      f(a)       : argument converted to the parameter type, 20 pairs;  `return a` converted to the return type, 20 pairs"""
+    binary, other = [], []
+    for U in SCALAR:
+        for V in SCALAR:
+            for op, nm in (("&&", "land"), ("||", "lor")):
+                binary.append(("i", "(%%s %s %%s)" % op, "%s.%s%s" % (nm, U, V), U, V, (4, 1)))
+                binary.append(("i", "(%%s %s %%s)" % op, "%s.%s%sz" % (nm, U, V), U, V, (4, 4)))
+    for U in SCALAR:
+        for V in SCALAR:
+            if U in ARITH and V in ARITH:
+                binary.append((common_type(U, V), "(%s ?: %s)", "elvis.%sx%s>%s" % (U, V, common_type(U, V)), U, V, (4, 1)))
+            elif U == V:
+                binary.append((U, "(%s ?: %s)", "elvis.%sx%s>%s" % (U, V, U), U, V, (4, 1)))
+    for U in ARITH:
+        for V in ARITH:
+            if U == V:
+                continue
+            T = common_type(U, V)
+            for op in CMP_OPS:
+                binary.append(("i", "(%%s %s %%s)" % op, "%s.%s%s" % (OPNAME[op], U, V), U, V, (0, 1)))
+            ops = ARITH_OPS["i"] if U in "il" and V in "il" else ARITH_OPS["e"]
+            for op in ops:
+                R = U if op in ("<<", ">>") else T
+                binary.append((R, "(%%s %s %%s)" % op.replace("%", "%%"), "%s.%sx%s>%s" % (OPNAME[op], U, V, R), U, V, (0, 1)))
+            binary.append((T, "(gc ? %s : %s)", "cond.%sx%s>%s" % (U, V, T), U, V, (0, 1)))
+            other.append((T, "(ge[6 + gc] ? %s[2] : %s[3])" % (GV[U], GV[V]), "cond.e?%sx%s>%s(v,v,v)" % (U, V, T)))
+            # destination V, source U
+            other.append((V, "(%s[0] = %s[2])" % (GV[V], GV[U]), "assign.%s>%s(v)" % (U, V)))
+            for op in ops:
+                other.append((V, "(%s[0] %s= %s[3])" % (GV[V], op, GV[U]), "%sasg.%s>%s(v)" % (OPNAME[op], U, V)))
+            other.append((V, "id%s(%s[2])" % (V, GV[U]), "callconv.%s>%s(v)" % (U, V)))
+    binary.append(("p", "(%s + %s)", "padd.pl", "p", "l", (0, 1)))
+    binary.append(("p", "(%s + %s)", "padd.lp", "l", "p", (1, 0)))
+    binary.append(("p", "(%s + %s)", "padd.ip", "i", "p", (1, 0)))
+    binary.append(("p", "(%s - %s)", "psub.pl", "p", "l", (0, 1)))
+    other.append(("p", "(gp[0] += gl[3])", "addasg.l>p(v)"))
+    other.append(("p", "(gp[0] -= gl[3])", "subasg.l>p(v)"))
+    return binary, other
+
+
+# calls of callees with the remaining return classes: char / _Bool / short (the caller extends %al / %ax) and a struct of
+# class X87 (returned in %st0)
+EXTRA_CALLS = [("i", "fc()", "call.fc"), ("i", "fb()", "call.fb"), ("i", "fs()", "call.fs"), ("e", "(fE().v)", "member.Ev(call.fE)")]
+MIXED_SLOT = {0: "[2]", 1: "[3]", 4: "[6 + gc]"}
+MIXED_SLOT[4, "z"] = "[6]"
+
+
 def enumerate_cases(tier, stmtexpr_member_ok=False):
     """-> list of dict(id, ctx, T, desc, size, build) in deterministic simplest-first order."""
     g = Gen(stmtexpr_member_ok)
     cases = []
     seen = set()
 
-    def add(ctxname, T, size, text, desc):
+    def add(ctxname, T, size, text, desc, dup_ok=False):
         cid = "%s/%s/%s" % (ctxname, T, desc)
         if cid in seen:
+            if dup_ok:
+                return
             raise core.HarnessError("generator produced a duplicate case id: " + cid)
         seen.add(cid)
         cases.append({"id": cid, "ctx": ctxname, "T": T, "desc": desc, "size": size, "E": text,
                       "build": (lambda F, c=ctxname, t=T, e=text: render_case(c, t, e, F))})
+
+    def ctx_wanted(cn, T, size):
+        if size > 1 and cn in PEND_CTX and cn not in PEND_X87:
+            return False
+        if size > max_all_ctx and cn not in ("init", "exprstmt"):
+            return False
+        if size > max_all_ctx and cn == "exprstmt" and T != "v" and size >= 3:
+            return False
+        return True
 
     max_all_ctx = 1 if tier == "quick" else 2
     max_init = 2 if tier == "quick" else 3
@@ -535,14 +667,53 @@ def enumerate_cases(tier, stmtexpr_member_ok=False):
             for cn in CTX_ORDER:
                 if T not in CTX[cn][0]:
                     continue
-                if size > max_all_ctx and cn not in ("init", "exprstmt"):
-                    continue
-                if size > max_all_ctx and cn == "exprstmt" and T != "v" and size >= 3:
+                if not ctx_wanted(cn, T, size):
                     continue
                 for text, desc in ex:
-                    if cn == "operandl" and T in "SL" and not stmtexpr_member_ok and addr_spine_is_stmtexpr(desc):
+                    if cn in MEMBER_CTX and T in "SL" and not stmtexpr_member_ok and addr_spine_is_stmtexpr(desc):
                         continue        # the context applies `.member` to the expression
                     add(cn, T, size, text, desc)
+    # ---- operand type pairs (mixed_forms) and the remaining callee return classes: size 1 in every context --------------
+    binary, other = mixed_forms()
+
+    def slot(U, sl, z):
+        return GV[U] + (MIXED_SLOT[4, "z"] if (sl == 4 and z) else MIXED_SLOT[sl])
+    extra = list(EXTRA_CALLS) + list(other)
+    for T, fmt, head, U, V, (sa, sb) in binary:
+        z = head.endswith("z")
+        extra.append((T, fmt % (slot(U, sa, False), slot(V, sb, z)), head + "(v,v)"))
+    for T, text, desc in extra:
+        for cn in CTX_ORDER:
+            if T in CTX[cn][0]:
+                add(cn, T, 1, text, desc)
+    for U in ARITH:
+        for V in ARITH:
+            if U != V:
+                add("return", V, 1, "%s[2]" % GV[U], "retconv.%s>%s(v)" % (U, V))
+    # ---- `(void)(void)E;` for every size-1 expression E of every type, in every context that drops a value ----------------
+    for U in ALLT:
+        for text, desc in g.exprs(U, 1, 0) + [(t, d) for (T, t, d) in EXTRA_CALLS if T == U]:
+            for cn in ("exprstmt", "forinc", "commalhs", "return", "pend.e"):
+                if True:
+                    add(cn, "v", 3, "((void)(void)%s)" % text, "cast.v>v(cast.%s>v(%s))" % (U, desc), dup_ok=True)
+    # ---- thorough: the binary mixed-type forms with one operand replaced by every size-1 expression of its type ---------
+    if tier != "quick":
+        for T, fmt, head, U, V, (sa, sb) in binary:
+            z = head.endswith("z")
+            opn = head.split(".")[0]
+            for side in (0, 1):
+                if side == 1 and opn in ("div", "mod", "shl", "shr"):
+                    continue            # right operands of / % << >> stay read-only leaves (never 0, shift count in range)
+                for text, desc in g.exprs((U, V)[side], 1, 1):
+                    if side == 0:
+                        e, d = fmt % (text, slot(V, sb, z)), "%s(%s,v)" % (head, desc)
+                    else:
+                        e, d = fmt % (slot(U, sa, False), text), "%s(v,%s)" % (head, desc)
+                    if head.split(".")[0] in ("padd", "psub") and far_pointer(desc):
+                        continue
+                    for cn in ("init", "pend.e"):
+                        if T in CTX[cn][0]:
+                            add(cn, T, 2, e, d)
     for cid, T, cn, desc, build in jump_cases() + alloca_cases() + conv_cases():
         cases.append({"id": cid, "ctx": cn, "T": T, "desc": desc, "size": 2, "E": None, "build": build})
     return cases
@@ -559,6 +730,7 @@ X87_NONE = set("fchs fabs fadd fadds faddl fsub fsubs fsubl fsubr fsubrs fsubrl 
                "fdivrl fiadd fiadds fiaddl fisub fisubs fisubl fimul fimuls fimull fidiv fidivs fidivl fst fsts fstl fist fists "
                "fistl fxch fnstcw fstcw fldcw fnstsw fstsw fwait wait fcom fcoms fcoml fucom fcomi fucomi fsqrt frndint ftst "
                "fxam fnclex fclex".split())
+X87_WIPE = set("emms femms fninit finit".split())      # mark all eight registers empty whatever their owner
 X87_REQ2 = set("faddp fsubp fsubrp fmulp fdivp fdivrp fcomip fucomip fcompp fucompp fxch fcomi fucomi fucom fucomp".split())
 X87_REQ0 = set("fnstcw fstcw fldcw fnstsw fstsw fwait wait fnclex fclex".split())
 X87_REQ1_NOOPS = set("fchs fabs fsqrt frndint ftst fxam".split())
@@ -683,8 +855,13 @@ def mentions(ins, reg):
 
 
 class FnModel:
-    def __init__(self, name, insns, ret_ld, callee_ld, probes=("vp_probe",), quad_refs=()):
+    def __init__(self, name, insns, ret_ld, callee_ld, probes=("vp_probe",), quad_refs=(), wipers=None):
         self.name, self.insns, self.ret_ld, self.callee_ld = name, insns, ret_ld, callee_ld
+        self.wipers = wipers or {}      # callee symbol -> mnemonic: functions found to empty the whole x87 stack
+        self.wipes = None               # this function empties the whole x87 stack (its caller's registers included)
+        self.wiped_by = set()           # callees that did so while this function held values on the x87 stack
+        self.extra_viol = set()
+        self.callees = set()
         self.probes = probes
         self.quad_refs = quad_refs
         self.unmodelled = None
@@ -891,6 +1068,32 @@ class FnModel:
                 self.underflow = True
                 x87 = req
             return rsp, x87 - (1 if mn in X87_POP else 2 if mn in X87_POP2 else 0), rbp
+        if mn in X87_WIPE:
+            # all eight registers become empty: the function's own pending values are lost (an anomaly here) and so are
+            # those its callers hold (an anomaly at every call site with x87 depth > 0: see `call`)
+            self.wipes = self.wipes or mn
+            if x87 > 0:
+                self.extra_viol.add("x87-stack-wiped-with-values-pending(%s)" % mn)
+            return rsp, 0, rbp
+        if mn in ("ffree", "ffreep"):
+            m = re.match(r"^%st(?:\((\d)\))?$", ops[0]) if len(ops) == 1 else None
+            k = int(m.group(1) or 0) if m else None
+            if k is not None and k >= x87:
+                self.extra_viol.add("x87-register-of-caller-freed")
+                return rsp, x87, rbp
+            nxt = self.insns[i + 1] if i + 1 < len(self.insns) else None
+            if k == 0 and mn == "ffreep":
+                return rsp, x87 - 1, rbp
+            if k == 0 and nxt is not None and nxt.mn == "fincstp" and not nxt.labels:
+                return rsp, x87 - 1, rbp            # `ffree %st(0); fincstp` = pop
+            return self.fail("x87 tag manipulation: " + x.raw)
+        if mn == "fincstp":
+            prv = self.insns[i - 1] if i > 0 else None
+            if prv is not None and prv.mn == "ffree" and prv.ops in (["%st"], ["%st(0)"]) and not x.labels:
+                return rsp, x87, rbp
+            return self.fail("x87 tag manipulation: " + x.raw)
+        if mn == "fdecstp":
+            return self.fail("x87 tag manipulation: " + x.raw)
         if mn.startswith("f"):
             return self.fail("unknown x87 mnemonic " + mn)
         if mn in ("push", "pushq", "pushfq", "pushf"):
@@ -908,6 +1111,14 @@ class FnModel:
             if sym in self.probes:
                 self.probe_rsp.add(rsp)
                 self.probe_x87.add(x87)
+            self.callees.add(sym)
+            if sym in self.wipers:
+                # the callee leaves the x87 stack of its caller empty: values this function holds there are lost
+                self.wipes = self.wipes or "call"
+                if x87 > 0:
+                    self.extra_viol.add("callee-changes-x87-stack-of-caller")
+                    self.wiped_by.add(sym)
+                x87 = 0
             return rsp, x87 + (1 if self.callee_ld[sym] else 0), rbp
         if mn in ("ret", "retq") or mn in ("jmp", "jmpq") or mn in JCC:
             return rsp, x87, rbp
@@ -1004,6 +1215,7 @@ class FnModel:
         for v in self.probe_x87:
             if v != 0:
                 viol.add("x87-at-statement-boundary=%+d" % v)
+        viol |= self.extra_viol
         fam = {}
         for t in viol:
             m = re.match(r"^(.*?)[=(]([+-]\d+)\)?$", t)
@@ -1031,6 +1243,19 @@ def model_file(asm_text, ret_ld, callee_ld):
         if name not in ret_ld:
             continue
         res[name] = FnModel(name, insns, ret_ld[name], callee_ld, quad_refs=quad_refs).run()
+    # callee summaries: a function that empties the whole x87 stack (emms / fninit, or a call of such a function) changes the
+    # x87 stack its caller sees; re-run the callers with that knowledge until the set is stable (never needed on a clean tree)
+    wipers = {n: m.wipes for n, m in res.items() if m.wipes}
+    for rnd in range(6):
+        if not wipers:
+            break
+        for name, m in list(res.items()):
+            if m.callees & set(wipers) or m.unmodelled is None and m.wipes == "call":
+                res[name] = FnModel(name, funcs[name], ret_ld[name], callee_ld, quad_refs=quad_refs, wipers=wipers).run()
+        new = {n: m.wipes for n, m in res.items() if m.wipes}
+        if set(new) == set(wipers):
+            break
+        wipers = new
     return res
 
 
@@ -1040,7 +1265,9 @@ def model_file(asm_text, ret_ld, callee_ld):
 BASE_CALLEES = {"fv": 0, "fi": 0, "fl": 0, "ff": 0, "fd": 0, "fe": 1, "fp": 0, "fS": 0, "fL": 0, "idi": 0, "idl": 0, "idf": 0,
                 "idd": 0, "ide": 1, "idp": 0, "idS": 0, "idL": 0, "hi": 0, "hl": 0, "hf": 0, "hd": 0, "he": 0, "hp": 0, "hS": 0,
                 "hL": 0, "k2i": 0, "k2l": 0, "k2f": 0, "k2d": 0, "k2e": 1, "k2p": 0, "k2S": 0, "k2L": 0, "k7": 0, "k8": 0,
-                "k9d": 0, "k7e": 1, "reset": 0, "getbf": 0}
+                "k9d": 0, "k7e": 1, "reset": 0, "getbf": 0, "fc": 0, "fb": 0, "fs": 0, "fE": 1}
+for _t in ALLT:
+    BASE_CALLEES["m" + _t] = BASE_CALLEES["n" + _t] = 0
 
 
 class _Shim:
@@ -1265,8 +1492,10 @@ def _run_cases(chibicc, wd, name, cases, rt_objs, depth=0):
     refobj = os.path.join(wd, name + "_ref.o")
 
     def cc(u):
-        ok, stage, st, err = twin.cc_compile(shim, u, ccobj, ["-DPFX=cc_"], cwd=wd)
+        ok, stage, st, err = twin.cc_compile(shim, u, ccobj, ["-DPFX=cc_"], cwd=wd, timeout=900)
         cc.last = (stage, st)
+        if not ok and st == "timeout" and len(cases) > 1:
+            raise core.HarnessError("chibicc %s timed out on a batch of %d cases (machine load?): never a verdict" % (stage, len(cases)))
         return ok, err
 
     def cc_reject(case, err):
@@ -1322,7 +1551,8 @@ def _run_cases(chibicc, wd, name, cases, rt_objs, depth=0):
     for k2 in BASE_CALLEES:
         m = models.get("cc_" + k2)
         if m is not None:
-            out["callees"][k2] = {"static": m.viol, "unmodelled": m.unmodelled, "states": m.states, "transitions": m.transitions}
+            out["callees"][k2] = {"static": m.viol, "unmodelled": m.unmodelled, "states": m.states, "transitions": m.transitions,
+                                  "wipes": m.wipes}
     # ---- execution records ----
     recs = {}
     for line in r["stdout"].split("\n"):
@@ -1359,7 +1589,8 @@ def _run_cases(chibicc, wd, name, cases, rt_objs, depth=0):
                 crashed[k] = st
     for k, (key, fns) in enumerate(table):
         res = {"static": [], "unmodelled": [], "states": 0, "transitions": 0, "pred_x87": 0, "alloca_sites": 0, "fns": len(fns),
-               "loops": 0, "values": 0, "values_unjudged": 0, "local_labels": 0}
+               "loops": 0, "values": 0, "values_unjudged": 0, "local_labels": 0, "wiped_by": []}
+        own_fns = set("cc_" + fn for fn, ld in fns)
         pred_ok = True
         for fn, ld in fns:
             m = models.get("cc_" + fn)
@@ -1377,6 +1608,7 @@ def _run_cases(chibicc, wd, name, cases, rt_objs, depth=0):
                 pred_ok = False
                 continue
             res["static"] += m.viol
+            res["wiped_by"] += [("(function of the case)" if w in own_fns else w[3:]) for w in sorted(m.wiped_by)]
             if len(m.x87_ret) == 1:
                 res["pred_x87"] += next(iter(m.x87_ret)) - (1 if ld else 0)
             else:
@@ -1586,12 +1818,14 @@ def desc_type(d):
     if name == "condmix":
         return "v"
     if name == "member":
-        return {"Sa": "l", "La": "l", "Sb": "i"}.get(t)
+        return {"Sa": "l", "La": "l", "Sb": "i", "Ev": "e"}.get(t)
     if name in ("padd", "psub", "addr"):
         return "p"
     if name == "call":
-        if t.startswith("h") or t in ("k7", "k8"):
+        if t.startswith("h") or t in ("k7", "k8", "fc", "fb", "fs"):
             return "i"
+        if t == "fE":
+            return None
         if t == "k9d":
             return "d"
         if t == "k7e":
@@ -1698,6 +1932,9 @@ def run(ctx):
         # debugging aid: restrict the run to the case ids matching a regular expression (never a complete run)
         cases = [c for c in cases if re.search(os.environ["VERIF_C20_FILTER"], c["id"]) or c["size"] <= 1]
         ctx.incomplete("VERIF_C20_FILTER=%s: %d cases only" % (os.environ["VERIF_C20_FILTER"], len(cases)))
+    if os.environ.get("VERIF_C20_ONLY"):
+        cases = [c for c in cases if re.search(os.environ["VERIF_C20_ONLY"], c["id"])]
+        ctx.incomplete("VERIF_C20_ONLY=%s: %d cases only" % (os.environ["VERIF_C20_ONLY"], len(cases)))
     keys = [c["id"] for c in cases]
     # shard: interleave so that every batch has a similar mix; VERIF_SEED only rotates the assignment
     nb = max(1, (len(keys) + BATCH - 1) // BATCH)
@@ -1813,18 +2050,33 @@ def judge(ctx, cases, results, ref_rejected, cc_fail, callees):
         desc = ("%s: model %s; machine %s; measured %s" % (c["id"], r["static"] or "clean", r["dynamic"] or "clean", r["measured"]))
         if c["E"]:
             desc += "; expression `%s` of type %s in context %s" % (c["E"], CT[c["T"]], c["ctx"])
-        for label, dev in root_causes(c, r, results):
+        if r.get("wiped_by"):
+            # root cause = the callee: it empties the x87 stack on which this function holds a long double operand while it
+            # evaluates the call (everything else the case shows - underflow, NaN result - follows from that)
+            causes = [("callee=%s" % w, "S:callee-changes-x87-stack-of-caller") for w in sorted(set(r["wiped_by"]))]
+        else:
+            causes = root_causes(c, r, results)
+        for label, dev in causes:
             sig = "C20|%s|%s" % (label, dev)
             ctx.violation(sig, desc,
                           files={"case.c": src, "c20_unit.h": prelude_text,
                                  "case.json": json.dumps({"id": c["id"], "fns": fl, "expect": expect, "sig": sig})},
                           replay=REPLAY_SH)
-    if judged == 0 or states == 0 or validated == 0:
+    def model_guard(msg):
+        # The model cannot vouch for this tree.  The machine measurements (x87 tag word / TOP / %rsp probes, gcc twin) are
+        # verdicts on their own: when they found violations those are reported (the run is marked not exhaustive);
+        # without any, a clean exit would be unfounded -> harness error.
+        if not ctx.violations:
+            raise core.HarnessError(msg)
+        ctx.incomplete("model part not usable on this tree (%s): verdicts from the machine measurements only" % msg)
+    if judged == 0 or states == 0:
         raise core.HarnessError("vacuous run: judged=%d states=%d validated=%d" % (judged, states, validated))
+    if validated == 0:
+        model_guard("no case validated against the machine: judged=%d states=%d unmodelled=%d %s" % (judged, states, unmodelled, unmodelled_why))
     if loops < judged // 2:
-        raise core.HarnessError("vacuous model: only %d of %d functions contain a back edge" % (loops, fns))
+        model_guard("vacuous model: only %d of %d functions contain a back edge" % (loops, fns))
     if unmodelled > judged // 4:
-        raise core.HarnessError("model vocabulary lost: %d of %d cases unmodelled: %s" % (unmodelled, judged, unmodelled_why))
+        model_guard("model vocabulary lost: %d of %d cases unmodelled: %s" % (unmodelled, judged, unmodelled_why))
     if os.environ.get("VERIF_C20_DUMP"):
         with open(os.environ["VERIF_C20_DUMP"], "w") as f:
             json.dump({"results": results, "cc_fail": cc_fail}, f)
@@ -1834,7 +2086,8 @@ def judge(ctx, cases, results, ref_rejected, cc_fail, callees):
         if c["id"] in results:
             by_ctx[c["ctx"]] = by_ctx.get(c["ctx"], 0) + 1
             by_size[str(c["size"])] = by_size.get(str(c["size"]), 0) + 1
-    ctx.cover(callee_functions_modelled=len(callees), callee_states=callee_states, callee_unmodelled=callee_unmodelled)
+    ctx.cover(callee_functions_modelled=len(callees), callee_states=callee_states, callee_unmodelled=callee_unmodelled,
+              callees_emptying_the_x87_stack=sorted(n for n, m in callees.items() if m.get("wipes")))
     ctx.cover(states=states + callee_states, transitions=transitions, traces_validated_against_impl=validated, cases=judged, functions_modelled=fns,
               functions_with_loops=loops, unmodelled_cases=unmodelled, unmodelled_reasons=unmodelled_why,
               model_vs_machine_disagreements=pred_mismatch, clean_cases=clean, anomalous_static_and_dynamic=both,
@@ -1867,9 +2120,9 @@ RULE = {
              "to _Bool/char/void, ?: and GNU ?:, comma, =, op=, ++/--, member/bit-field loads and stores, compound literals, * and &, "
              "pointer arithmetic, calls of every return class with 0/1/2 register arguments and 1/2/3/6 stack argument words, "
              "statement expressions) of size 0..1 composite nodes x result type {int,long,float,double,long double,int*,16-byte "
-             "struct (registers),24-byte struct (memory),void} x 14 consumption contexts {expression statement, for-increment, "
+             "struct (registers),24-byte struct (memory),void} x 23 consumption contexts {expression statement, for-increment, "
              "comma lhs, call argument, left/right operand (left operand of a struct = `.member` applied to it), initializer, "
-             "if/while/do/for condition, ?: condition, switch, return}; every size-2 composition in the contexts initializer and "
+             "if/while/do/for condition, ?: condition, switch, return, 9 pending-operand contexts}; every size-2 composition in the contexts initializer and "
              "expression statement.  Dropped / tested operands of every type: comma with a left operand of each of the 8 types and "
              "void, ?: with the int flag and with a condition operand of each of the 6 scalar types (both truth values executed), ?: "
              "with exactly one void arm and the other arm of each of the 8 types, void leaf (void)0; `.member` on struct-valued "
@@ -1879,8 +2132,20 @@ RULE = {
              "negative, +-inf, +-NaN), x87 tag word / TOP / %rsp read after every value; the model follows jumps to local numeric "
              "labels inside `;`-joined instruction strings.  Every jump kind {break,continue,goto,goto*,return,none} out of a "
              "statement expression x 13 pending-temporary shapes x 6 types; 6 alloca/VLA idioms.  Right operands of / % << >> are "
-             "read-only leaves; one lvalue object per composite node.",
-    "thorough": "as quick, with every size-2 composition in all 14 contexts and every size-3 composition in the context initializer "
+             "read-only leaves; one lvalue object per composite node.  "
+             "Operand type pairs (size 1, all contexts): && || over 6x6 scalar types with the right operand evaluated (left operand "
+             "zero/non-zero by the flag; right operand non-zero / zero), GNU ?: over 5x5 arithmetic pairs + pointers, 6 comparisons "
+             "and + - * / over the 20 mixed arithmetic pairs (all ten operators for int x long), pointer +- long, ?: arms of mixed "
+             "types with int / long double condition, = and op= over destination x source pairs, argument -> parameter and return "
+             "conversions.  9 pending-operand contexts: E under a pending int/long/float/double/long double addend, under a pending "
+             "long double comparison, under two pending long doubles, as argument after/before a long double argument - for every "
+             "size-0/1 form (size 2 under the pending long double contexts in thorough), including calls of chibicc-compiled callees "
+             "of 13 return classes {void,char,_Bool,short,int,long,float,double,long double,pointer,struct regs,struct memory,"
+             "struct{long double}}.  (void)(void)E for every size-1 E of every type in 5 value-dropping contexts.  Model: emms/femms/"
+             "fninit/finit empty the x87 stack (callee summaries propagated to call sites to a fixpoint), ffreep/ffree+fincstp pops.",
+    "thorough": "as quick, with every size-2 composition in the 14 base contexts and the 3 pending-long-double contexts, the binary "
+                "operand-type-pair forms with either operand replaced by every size-1 expression of its type (initializer, pending "
+                "long double), and every size-3 composition in the context initializer "
                 "(size-3 parents restricted to one representative per code path: + among arithmetic and op=, < among comparisons; "
                 "inside size-3 trees the dropped comma operand is int or long double, the typed ?: condition and the non-void arm "
                 "of a one-void-arm ?: are long double).",
